@@ -29,7 +29,7 @@ import warnings
 
 VERIF = os.path.dirname(os.path.dirname(os.path.abspath(__file__)))
 REPO = os.environ.get('COPULAS_REPO', '/repo')
-CASE_TIMEOUT = int(os.environ.get('VERIF_CASE_TIMEOUT', '600'))
+CASE_TIMEOUT = int(os.environ.get('VERIF_CASE_TIMEOUT', '240'))
 
 
 class HarnessError(Exception):
